@@ -76,6 +76,15 @@ def make_case(rng, max_j, max_s, max_n, full, mev, small):
     rng.shuffle(order)                              # the table is NOT sorted by id
     alts = pd.DataFrame({'id': [int(i) for i in order],
                          **{c: [enc_alt(i, c, small) for i in order] for c in COLS}})
+    # the pandas index of the table of alternatives carries no meaning: default, shifted (a filtered
+    # catalogue), permuted labels, or the ids themselves
+    style = int(rng.integers(0, 4))
+    if style == 1:
+        alts.index = np.arange(100, 100 + 3 * J, 3)
+    elif style == 2:
+        alts.index = rng.permutation(J)
+    elif style == 3:
+        alts.index = [int(i) + 1000 for i in order]
     S = int(rng.integers(1, min(max_s, J) + 1))
     strata = random_partition(rng, ids, S)
     sizes = [len(s) if full else int(rng.integers(1, len(s) + 1)) for s in strata]
